@@ -46,12 +46,12 @@ def _tasks(ctx: common.Ctx, n_bundles: int, n_corpus: int) -> Iterator[dict[str,
                    "_id": f"gen:{k}", "_stream": "generated"}
     if n_corpus:
         cases = [c for c in corpus.load(["stubgen.test"]) if not c.files and c.main.strip() and not c.cmd]
-        rng = common.rng_for("C19", "corpus")
-        rng.shuffle(cases)
+        import random
+        random.Random("C19-corpus").shuffle(cases)   # the same selection for every seed
         cases = cases[:n_corpus]
         for i in range(0, len(cases), 8):
             chunk = cases[i:i + 8]
-            files = {f"s{ctx.seed}c{i + j}.py": c.main for j, c in enumerate(chunk)}
+            files = {f"c19corpus{i + j}.py": c.main for j, c in enumerate(chunk)}
             mods = [f[:-3] for f in files]
             for mode in MODES:
                 yield {"fn": "vlib.tasks.c19_run:run_bundle",
@@ -221,7 +221,7 @@ class Evaluator:
                     if tm and tm.group(1) in degraded:
                         continue  # consequence of an undefined name in that class's base list
                     path, nk = M.enclosing_top(tree, e["line"])
-                    kind = (smodel.describe(path[:1]) if path else nk).replace("conditional-", "")
+                    kind = M.coarse_kind(smodel.describe(path[:1])) if path else nk
                     nm = re.search(r'Name "([^"]+)" is not defined', e["msg"])
                     if mode == "insp":
                         key = f"stub-typecheck:inspect:{e['code']}:{M.norm_msg(e['msg'])}"
@@ -236,8 +236,19 @@ class Evaluator:
             if m in st_covered:
                 ctx.count()
                 ctx.cell(f"oracle:{mode}:c-stubtest")
-                for e in st_errs.get(m, []):
-                    kind = smodel.describe(e["path"]).replace("conditional-", "")
+                errs_st = st_errs.get(m, [])
+                # several "is inconsistent, ..." lines about one object are one signature disagreement:
+                # keep the alphabetically first normalised message as its representative
+                first_incons: dict[str, str] = {}
+                for e in errs_st:
+                    nmsg = M.norm_msg(e["msg"])
+                    if nmsg.startswith("is inconsistent, "):
+                        if e["obj"] not in first_incons or nmsg < first_incons[e["obj"]]:
+                            first_incons[e["obj"]] = nmsg
+                for e in errs_st:
+                    if M.norm_msg(e["msg"]).startswith("is inconsistent, ") and first_incons.get(e["obj"]) != M.norm_msg(e["msg"]):
+                        continue
+                    kind = M.coarse_kind(smodel.describe(e["path"]).replace("conditional-", ""))
                     last = e["path"][-1] if e["path"] else ""
                     if last.startswith("__") and last.endswith("__"):
                         kind = kind.split(".")[0] + "." + last if len(e["path"]) > 1 else last
@@ -248,6 +259,8 @@ class Evaluator:
                         elif kind == "imported-name":
                             kind = "imported-name" + ("-listed-in-__all__" if in_all else "")
                     key = f"stubtest:inspect:{M.norm_msg(e['msg'])}" if mode == "insp" else f"stubtest:{MODE_NAME[mode]}:{kind}:{M.norm_msg(e['msg'])}"
+                    if kind == "pep695-alias" and mode != "insp":
+                        key = f"stubtest:{MODE_NAME[mode]}:pep695-alias:runtime TypeAliasType object is not understood"
                     once(key,
                          "stubtest reports a disagreement between the generated stub and the imported module",
                          {"stubtest": f"error: {e['obj']} {e['msg']}\n{e['body']}", "object": e["obj"]})
